@@ -86,7 +86,7 @@ def plan(tier: str) -> dict:
                 "audit_inventory_mmap": 18000,
                 "load_base_dir_ok": 90000,
                 "load_spelling:bare-filename": 2000,
-                "load_base_dir_judged_for_model_file_symlinked_into_another_dir": 30000,
+                "load_base_dir_judged_for_model_file_symlinked_into_another_dir": 25000,
                 "stateful_cases": 20000,
                 "stateful_refused_although_previously_mapped": 2000,
                 "strace_cases_observed": 1000,
